@@ -11,7 +11,7 @@
      [110 handle n (name value)*]   in subscription order.
    query ::= nproj pitem* whereflag [qexpr];  pitem ::= 0 qexpr | 1 qexpr alias | 2
    qexpr ::= 0 nint d* dot nfrac d* | 1 str | 2 b | 3 path | 4 qexpr | 5 n | 6 | 7 op qexpr qexpr
-           | 8 qexpr | 9 qexpr | 10 qexpr | 11 neg qexpr qexpr qexpr | 12
+           | 8 qexpr | 9 qexpr | 10 qexpr | 11 neg qexpr qexpr qexpr | 12 | 13 (a subquery as operand)
    The SQL text is what the implementation is given; the model reads the syntax tree. *)
 From Coq Require Import ZArith Bool List.
 From KD Require Import Model.Values Model.Compare Model.Validate Model.Perm Model.Glob Model.Broker
@@ -186,6 +186,7 @@ Fixpoint dec_qexpr (fuel : nat) (ts : list Z) : option (qexpr * list Z) :=
       | None => None
       end
     | 12 :: r => Some (QOther, r)
+    | 13 :: r => Some (QSub, r)
     | _ => None
     end
   end.
